@@ -17,6 +17,14 @@ CLAIMED = {
    text="Authentic datagrams for CASE, PASE and group sessions over all header shapes and payload lengths are built with the session keys; every single-bit flip (<=128 B, sampled above), truncation, extension, re-keying, reflection, cross-session transplant, source/destination field change and group/unicast confusion is delivered alone to a real receiver node before the authentic original (control). Oracle: a mutant is never handed to an exchange and leaves the session snapshot (counters, window, exchanges, keys) unchanged; the original is delivered exactly once with identical header fields and payload; 1e6 codec-level encode/decode round trips with 5e6 mutants.",
    note="Cryptographic forgery is not searched for. Trusted: snapshot hook, harness-side encoder over the public PacketHdr API. MSG_EXT/PRIVACY/SECEX flags only reached by bit flips; TCP not covered.",
    tech="runtime monitoring: mutation of authentic datagrams with snapshot-diff and delivery-log oracle", ref="DESIGN.md §3 C03"),
+ "C06": dict(cat="exploration",
+   text="A controller and a device (real Matter each) whose data model is a probe generated at run time (1-6 endpoints x 1-5 clusters x attributes/commands/events with arbitrary access declarations incl. timed-only and fabric-scoped, values a pure function of path and version) that logs every read/write/invoke it receives, plus the real Descriptor/ACL/NOC clusters on endpoint 0. Requests (wildcards at every position, absent elements, repeats, timed/untimed with virtual-time expiry, composition swapped between chunks) from 7 requester kinds are compared with a reference expansion written from the statement: decoded responses must equal the expected multiset per path (status classes), and the probe call log must stay inside the permitted set.",
+   note="Status codes compared by class. Group requesters, writes/invokes on the real system clusters and chunked writes are not covered. ProxyView-only grants are not judged (see C05).",
+   tech="runtime monitoring: reference path-expansion oracle + instrumented data model call log", ref="DESIGN.md §3 C06"),
+ "C14": dict(cat="exploration",
+   text="Same scaffold as C06; value sizes are swept so that the space left in a chunk takes every offset -8..+8 around the fit boundary for scalars, octet strings, lists (elements that do / do not fit, lists longer than a message), with data-version and event filters, for reads, subscription priming and subscription reports. The concatenation of decoded chunks must equal the one-shot expected result (each value and event exactly once, lists reassembled in order), every chunk must be well-formed on its own (strict independent TLV walk), fit the maximum payload, and only the last one ends the interaction; inputs that cannot be transported must terminate with a status in a bounded number of chunks.",
+   note="TX buffer size is a compile-time constant: 'every buffer size' is explored through value sizes; large-buffers build not covered. Event-number order only noted.",
+   tech="runtime monitoring: chunk-reassembly oracle against one-shot reference expansion, boundary sweep of value sizes", ref="DESIGN.md §3 C14"),
  "C09": dict(cat="exploration",
    text="Two real nodes exchange uniquely tagged application messages over CASE, PASE and unsecured sessions (1-4 concurrent exchanges, ping-pong and one-way streams) under seeded adversaries (per-datagram loss/dup/delay up to 50 %, drop all acks, drop first n copies, deliver after give-up, duplicate after ack, stale carriers). An offline checker over the recorded {call, return, app-receive, wire} history judges: at most once and in order, Ok only if a copy reached the peer, return within the retransmission budget, error on exhaustion, Ok if a transmission and an acknowledgement got through, back-off lower bound, duplicates of R-flagged messages re-acknowledged.",
    note="Virtual time makes the back-off rule exact. Not judged: 6 transmissions instead of 5; late duplicates on unsecured sessions taken for a counter restart (mandated by C04). Datagrams decoded with the known session keys.",
